@@ -197,9 +197,27 @@ PROPS = {
         "floors": {"timeseries": 500, "protected": 400},
         "thorough_shards": 8,
     },
+    "C04": {
+        "harness": "c04", "driver": "c04",
+        "lean_modules": ["BleveModel.Props.Snapshot", "BleveModel.Props.C04"],
+        "rule": ("2-3 concurrent writers (writer w's n-th batch sets its 2-3 fixed documents and its internal key to n and makes n%3 "
+                 "of two extra documents present, deleting the others), three reader clients and one searching client, one "
+                 "long-lived reader re-read every 5 ms, forced merges on disk; engines scorch on disk (safe; unsafe with 3 persister "
+                 "workers), scorch in memory, upsidedown over gtreap and boltdb. Every observation is made through ONE reader "
+                 "(Document per id, GetInternal per writer, DocCount) or one Search (match-all with stored seq, Total); the number "
+                 "of batches acknowledged per writer is sampled before the read begins. The Lean monitor `History.check` (proved "
+                 "equal to the specification `Consistent`) judges each observation with the client's previous prefix vector; the "
+                 "long-lived reader's digest (documents, internals, count, id listing, dictionary, postings) must never change. "
+                 "non-trivial = every observation"),
+        "trusted_base": COMMON_TB + ["the Go scheduler produces the interleavings; atomic counters order 'acknowledged' before 'read began'"],
+        "assumptions": ["partial: atomicity of the root swap in the Go runtime is exercised by concurrent runs, not proved", LEVEL_NOTE],
+        "floors": {"scorch-disk/obs": 200, "scorch-mem/obs": 200, "upsidedown-gtreap/obs": 200, "upsidedown-boltdb/obs": 30,
+                   "scorch-disk/handle": 30, "scorch-disk/search-obs": 50},
+        "thorough_shards": 4,
+    },
     "C01": {
         "harness": "c01", "driver": "c01",
-        "lean_modules": ["BleveModel.Props.C01"],
+        "lean_modules": ["BleveModel.Props.C01", "BleveModel.Props.Snapshot"],
         "rule": ("seeded operation histories (Index/Delete/SetInternal/DeleteInternal over 4-12 document ids and 3 internal keys: "
                  "re-indexing live ids, deleting absent ids, several operations on one id in one batch, empty batches, single "
                  "operations through the non-batch API), every configuration with its own random partition into batches: scorch on "
